@@ -81,7 +81,9 @@ fn play_long(turns: u64, seed: u64) -> Result<(GameState, GameState, GameState, 
                 continue 'turn;
             }
             // legality spot check against the engine's own (O(L)) repetition-aware list
-            if t % 10_000 == 0 {
+            // (only on turns of one or two steps: nothing of this game is asked about a fourth step before the end,
+            // so whatever the engine builds lazily for that question is built over the whole history at once)
+            if t % 10_000 == 0 && acts.len() <= 2 {
                 if !cur.valid_actions().contains(&Action::Pass) {
                     return Err(format!("turn {}: harness-chosen pass is not in valid_actions()", t));
                 }
@@ -338,7 +340,12 @@ fn exercise(g: GameState, mid: GameState, twin: GameState, unwind: bool) -> Valu
     let (twin_later, later_queries) = advance_and_query_step3(twin.clone(), 1 + (twin_hist % 8) as u32);
     let twin_later_hist = twin_later.unwrap_play_phase().hash_history().len();
     drop(twin_later);
-    drop(twin); // last owner of the second long list
+    // the last owner of the second long list is not dropped but overwritten in place with a fresh short game
+    let mut twin = twin;
+    let short = inject(&gen::long_game_position(), true, 2);
+    twin.clone_from(&short);
+    let twin_after_clone_from = twin.unwrap_play_phase().hash_history().len();
+    drop(twin);
     let c = g.clone();
     drop(c);
     // a successor shares the history; dropping the predecessor must not free it
@@ -405,7 +412,7 @@ fn exercise(g: GameState, mid: GameState, twin: GameState, unwind: bool) -> Valu
         drop(mid);
     }
     let after = vmstk_kb();
-    json!({"vmstk_before_kb": before, "vmstk_mid_kb": mid_vm, "vmstk_after_newer_half_kb": after_newer, "vmstk_after_kb": after, "valid_actions": n_actions, "valid_actions_no_rep": n_norep, "terminal": term, "can_pass": cp, "has_move": hm, "printed_len": text_len, "hash": format!("{:#018x}", hash), "eq_mid": eq, "history_len": hl, "history_iter_count": hcount, "history_head": hhead.map(|h| format!("{:#018x}", h)), "tail_len": tail_len, "tail_iter_count": tail_iter_count, "tail_chain_len": tail_chain_len, "iterator_dropped_after": partial_iter, "mid_turn_query_rounds": mid_turn_queries, "pending_push_state_queried": pending_push_queried, "bytes_formatted_by_trace_logger": crate::eng::LOGGED_BYTES.load(std::sync::atomic::Ordering::Relaxed), "mid_state_valid_actions": mid_actions, "mid_state_history_len": mid_hist, "capture_after_long_stretch_taken": capture_taken, "extra_steps_before_capture": extra_steps, "dropped_during_unwinding": unwound, "twin_history_len": twin_hist, "twin_probes": twin_probes, "twin_agreements_of_3_per_probe": twin_agreements, "step_back_states_queried": step_back_states, "twin_continued_to_history_len": twin_later_hist, "step3_queries_on_continued_twin": later_queries})
+    json!({"vmstk_before_kb": before, "vmstk_mid_kb": mid_vm, "vmstk_after_newer_half_kb": after_newer, "vmstk_after_kb": after, "valid_actions": n_actions, "valid_actions_no_rep": n_norep, "terminal": term, "can_pass": cp, "has_move": hm, "printed_len": text_len, "hash": format!("{:#018x}", hash), "eq_mid": eq, "history_len": hl, "history_iter_count": hcount, "history_head": hhead.map(|h| format!("{:#018x}", h)), "tail_len": tail_len, "tail_iter_count": tail_iter_count, "tail_chain_len": tail_chain_len, "iterator_dropped_after": partial_iter, "mid_turn_query_rounds": mid_turn_queries, "pending_push_state_queried": pending_push_queried, "bytes_formatted_by_trace_logger": crate::eng::LOGGED_BYTES.load(std::sync::atomic::Ordering::Relaxed), "mid_state_valid_actions": mid_actions, "mid_state_history_len": mid_hist, "capture_after_long_stretch_taken": capture_taken, "extra_steps_before_capture": extra_steps, "dropped_during_unwinding": unwound, "twin_history_len": twin_hist, "twin_probes": twin_probes, "twin_agreements_of_3_per_probe": twin_agreements, "step_back_states_queried": step_back_states, "twin_continued_to_history_len": twin_later_hist, "step3_queries_on_continued_twin": later_queries, "last_owner_overwritten_with_clone_from_history_len": twin_after_clone_from})
 }
 
 /// A state whose history list has `n` entries, built with the public constructors (cheap way to
